@@ -1003,6 +1003,45 @@ def kb8(P, C, floor=150):
                 why = "index grows with %s (up to %r) but the array has %d elements%s" % (", ".join(runtime), hi, ext,
                                                                                            "; bounded by the guard %s" % gd[0] if gd else " and nothing refuses larger values")
             C.ob("KB-8", kname(f), "%s[%s]@%d" % (name, f.render(f.nodes[i]["ch"][1]).replace(" ", ""), f.nodes[i]["loc"][0]), ok, f.loc(i), why)
+        # the same arrays handed to a function of the library that indexes its parameter with a range of its own
+        for ci, cal in f.calls():
+            if not cal or not cal.get("inRoots"):
+                continue
+            g = P.functions.get(cal.get("usr"))
+            if g is None or not g.cfg:
+                continue
+            for k, a in enumerate(f.args(ci)):
+                b = f.strip(a)
+                if f.k(b) != "DeclRefExpr" or f.nodes[b]["decl"].get("id") not in arrays or k >= len(g.params):
+                    continue
+                name, ext, _d = arrays[f.nodes[b]["decl"]["id"]]
+                pid = g.params[k]["id"]
+                worst = None
+                for x in g.walk():
+                    if g.k(x) != "ArraySubscriptExpr":
+                        continue
+                    gb_ = g.strip(g.nodes[x]["ch"][0])
+                    if g.k(gb_) != "DeclRefExpr" or g.nodes[gb_]["decl"].get("id") != pid or g.nodes[gb_]["decl"].get("kind") != "ParmVar":
+                        continue
+                    env = _loop_env(g, x, {})
+                    idx = core.poly(g, g.nodes[x]["ch"][1])
+                    hi = _bound(idx, env, "hi") if env else idx
+                    if hi is None:
+                        continue
+                    if hi.atoms() or (hi.is_const() and hi.const_value() >= ext):
+                        worst = (x, hi)
+                        break
+                n += 1
+                ok = worst is None
+                if not ok:
+                    # a guard in the caller on the same quantity?
+                    from . import vg
+                    txts = [f.render(f.nodes[gd["node"]]["cond"]) for gd in vg.guards_of(f)]
+                    ok = any(any(at_.split("->")[-1] in t for at_ in worst[1].atoms()) for t in txts) if worst[1].atoms() else False
+                C.ob("KB-8", kname(f), "%s->%s(#%d)@%d" % (name, g.name, k, f.nodes[ci]["loc"][0]), ok, f.loc(ci),
+                     "%s (%d elements) is handed to %s, which indexes that parameter within constant bounds below the extent" % (name, ext, g.name) if worst is None else
+                     "%s has %d elements but %s indexes the parameter it is bound to up to %r (%s): nothing refuses larger values" %
+                     (name, ext, g.name, worst[1], g.loc(worst[0])))
     return n
 
 
@@ -1070,3 +1109,61 @@ def _resolve_upper(f, rd, p, at_node, arr_name, ext, env, depth=0):
             q = _resolve_upper(f, rd, q, defs[0], arr_name, ext, env, depth + 1)
             p = p.subst({a: q})
     return p
+
+
+def as1(P, C):
+    """AS-1: every assertion on the lookup / evaluation path is one the analysis discharges."""
+    C.rule("AS-1", "lookup and evaluation trip no assertion for any coordinate: every assert in the basis kernels, the cores and the entry points "
+           "is either `ndim > 0` (a well-formed table has a dimension: the reader and the fitter refuse anything else) or the centre-range "
+           "condition order <= centre <= nknots-order-2 on the kernel's own parameters (what lookup guarantees: SC-2/SC-5).  An assertion "
+           "with any other condition is a new obligation — for instance a half-open interval test, which the margin shifts (x > knots[left+1]) "
+           "and lookup (x <= last knot, upper end assigned to the interval on its left) do not establish", floor=3)
+    from . import vg
+    n = 0
+    files = ("bspline.h", "bspline_eval.h", "bspline_multi.h", "bspline.cpp", "simd.h")
+    seen = set()
+    for f in sorted(P.functions.values(), key=lambda g: (g.file, g.line, str(g.targs))):
+        if not f.file.startswith(core.REPO) or not f.file.endswith(files) or f.unit not in ("driver", "core/bspline"):
+            continue
+        for i in f.walk():
+            nn = f.nodes[i]
+            if "assert" not in (nn.get("macros") or []) or f.k(i) != "ConditionalOperator":
+                # psx records the macro stack on the outermost node of the expansion
+                continue
+            cond = nn["ch"][0]
+            key = (f.file, tuple(nn["loc"]), f.name)
+            if key in seen:
+                continue
+            seen.add(key)
+            conn, leaves = core.cond_leaves(f, cond)
+            texts = [f.alpha(x)[0].replace(" ", "").replace("table.", "") for x in leaves]
+            kind = None
+            if conn == "leaf" and texts[0] in ("(0<ndim)", "(ndim!=0)", "(1<=ndim)"):
+                kind = "the table has a dimension"
+            else:
+                pn = {p["name"]: k for k, p in enumerate(f.params)}
+                at = vg.atomizer(f, ())
+                rels = []
+                for lf in leaves:
+                    rc = core.rel_canon(f, lf, at)
+                    rels.append(rc)
+                if conn == "&&" and len(rels) == 2 and all(r is not None for r in rels) and f.name in ("bspline_nonzero", "bspline_deriv_nonzero", "bsplvb_simple", "bsplvb"):
+                    # centre >= order  and  centre <= nknots - order - 2   (parameters by position: knots, nknots, x, left, n)
+                    L, N_, K = Poly.atom("$3"), Poly.atom("$4"), Poly.atom("$1")
+                    want = {(L - N_, ">=0"), (K - N_ - Poly.const(2) - L, ">=0")}
+                    got = set()
+                    for (p_, op) in rels:
+                        if op == "<0":
+                            got.add((Poly.const(0) - p_ - Poly.const(1), ">=0"))
+                        elif op == ">=0":
+                            got.add((p_, ">=0"))
+                    if got == want:
+                        kind = "centre range (established by lookup)"
+            n += 1
+            C.ob("AS-1", kname(f) if f.name in KERNELS else f.name, "assert@%d" % nn["loc"][0], kind is not None, f.loc(i),
+                 "assert(%s): %s" % (f.render(cond)[:80], kind) if kind else
+                 "assert(%s) is not one of the conditions the analysis discharges: nothing proves that it cannot trip (lookup accepts x <= last knot and "
+                 "gives the upper end of the supported range to the interval on its left; the margin shifts stop at x <= knots[left+1])" % f.render(cond)[:100])
+    if n == 0:
+        raise core.AnalysisBroken("AS-1: no assertion found in the evaluation code (built with -UNDEBUG?)")
+    return n
